@@ -93,6 +93,22 @@ theorem passed_of_mem {t : Tid} {o : OnceId} : ∀ pre : List Ev,
 theorem passed_of_returned {t : Tid} {o : OnceId} {pre : List Ev} (h : ReturnedFromDo t o pre) :
     passed o t pre = true := passed_of_mem pre h
 
+/-! ### introduction rules for the event-level clauses (a goroutine's own steps) -/
+
+theorem heldExcl_acq {t : Tid} {m : Lock} {p1 : List Ev} : HeldExcl t m (Ev.acq t m :: p1) := ⟨[], p1, rfl, by simp⟩
+theorem heldExcl_cons {t : Tid} {m : Lock} {e : Ev} {pre : List Ev} (hne : e ≠ Ev.rel t m) (h : HeldExcl t m pre) : HeldExcl t m (e :: pre) := by
+  obtain ⟨p2, p1, hs, hn⟩ := h
+  exact ⟨e :: p2, p1, by simp [hs], by simp [hn, Ne.symm hne]⟩
+theorem heldRead_racq {t : Tid} {m : Lock} {p1 : List Ev} : HeldRead t m (Ev.racq t m :: p1) := ⟨[], p1, rfl, by simp⟩
+theorem heldRead_cons {t : Tid} {m : Lock} {e : Ev} {pre : List Ev} (hne : e ≠ Ev.rrel t m) (h : HeldRead t m pre) : HeldRead t m (e :: pre) := by
+  obtain ⟨p2, p1, hs, hn⟩ := h
+  exact ⟨e :: p2, p1, by simp [hs], by simp [hn, Ne.symm hne]⟩
+theorem inOnceBody_begin {t : Tid} {o : OnceId} {p1 : List Ev} : InOnceBody t o (Ev.onceBegin t o :: p1) := ⟨[], p1, rfl, by simp⟩
+theorem inOnceBody_cons {t : Tid} {o : OnceId} {e : Ev} {pre : List Ev} (hne : e ≠ Ev.onceEnd t o) (h : InOnceBody t o pre) : InOnceBody t o (e :: pre) := by
+  obtain ⟨p2, p1, hs, hn⟩ := h
+  exact ⟨e :: p2, p1, by simp [hs], by simp [hn, Ne.symm hne]⟩
+
+
 /-! ### the two formulations of `GeneratedOn` -/
 
 theorem genRec_of_split (I : Interp) (table : List Row) (x : Var) (full : List Ev) : ∀ tr : List Ev,
